@@ -11,4 +11,8 @@ TEXT = {
     level='Every Linen filter sentence is proved for all filters, all nesting depths and all collection names: VCs generated from the real in_filter/filter_to_set/union/intersect/subtract/is_filter_empty (AST re-read from /repo each run) against contracts over the spec function mem(f,c); discharged by z3/cvc5; recursion by decreases on DenyList depth.',
     note='Trusted: the VC generator\'s Python-subset semantics, the isinstance table of the Filter type model (str is a Collection), names as an infinite uninterpreted sort with finite python sets, solvers. Native evaluation of the same contracts on enumerated small filters is a bounded cross-check, never counted as proved.',
     technique='contract-based deductive verification (own VC generator over the real AST + z3/cvc5)'),
+  'C19': dict(
+    level='Proved for every rank, name tuple and stacking index: Partitioned.add_axis inserts the declared partition name exactly at position k (padding with None), remove_axis removes exactly position k, remove after add restores the names (lemma over the two contracts), get_partition_spec is PartitionSpec of exactly the names. VCs from the real method bodies incl. the padding while-loop (invariant + decreases).',
+    note='Trusted: VC generator semantics, dataclass replace summary, PartitionSpec as uninterpreted constructor, solvers. Not decided: numerics of boxed variables. Native evaluation of the same contracts on small name tuples is bounded, not proof.',
+    technique='contract-based deductive verification (own VC generator over the real AST + z3/cvc5)'),
 }
